@@ -862,6 +862,45 @@ func processSource(c *Ctx, src, tag string, nresp, nmut int) {
 	}
 }
 
+// suffixMatrix: every term kind x every first-suffix form (glued and spaced) x a second suffix, bare and inside
+// array / object / interpolation / unary / pipe contexts.  Exhaustive; the sources that parse go through the
+// round-trip oracle (the printer's spacing rules are per adjacent-token pair), the others through the error oracles.
+var mxTerms = []string{"1", "10", "007", "1.5", ".5", "1e3", "1E-2", "1.", "1.e2", "0", "-1", "- 1.5", "+1", `"s"`, `"a\(1)b"`, `""`,
+	"@base64", `@base64 "x"`, `@json "\(.)"`, ".", "..", ".a", ".a1", ".if", `."k"`, `."k\(1)"`, ".[0]", ".[]", "$x", "$x1", "$__loc__", "$m::v",
+	"{}", "{a:1}", `{"a":1}`, "[]", "[1]", "(1)", "(.a)", "(1,2)", "f", "f1", "f(1)", "f(1;2)", "m::f", "-.a", "-f", "-(1)", "null", "true", "false",
+	"if . then 1 end", "try 1", "try 1 catch 2", "reduce . as $x (0;1)", "foreach . as $x (0;1;2)", "break $x", "-1.5e3", "1e1000", "100000000000000000000"}
+var mxFirst = []string{".x", ".a1", ".if", "._x", ".e1", ".E2", ".x1", `."str"`, `."s\(1)"`, `.""`, `.["k"]`, ".[0]", ".[1:2]", ".[:2]", ".[1:]", ".[]",
+	"[0]", `["k"]`, "[1:2]", "[:2]", "[1:]", "[]", "?", ".x?", `."k"?`, "..", ". x"}
+var mxSecond = []string{"", ".y", `."z"`, "[0]", "[]", "?", ".[1]", ".e2", ".[]", `.["k"]`, " .y", ` ."z"`, " [0]", " ?"}
+
+func suffixMatrix(c *Ctx, each func(src string)) {
+	for _, t := range mxTerms {
+		for _, f := range mxFirst {
+			for _, sp := range []string{"", " "} {
+				core := t + sp + f
+				for _, g := range mxSecond {
+					each(core + g)
+				}
+				each("[" + core + "]")
+				each("[" + core + ", " + core + "]")
+				each("{a: " + core + "}")
+				each("{(" + core + "): " + core + "}")
+				each(`"x\(` + core + `)y"`)
+				each("-" + core)
+				each(core + " | " + core)
+				each(core + " + " + core)
+				each("f(" + core + "; " + core + ")")
+				each(".[" + core + "]")
+				each(".[" + core + ":" + core + "]")
+				each(core + " as $v | $v")
+				each("try " + core + " catch " + core)
+				each("if " + core + " then " + core + " else " + core + " end")
+				each("reduce " + core + " as $v (" + core + "; " + core + ")")
+			}
+		}
+	}
+}
+
 func runLex(c *Ctx) {
 	var corpusPath string
 	var explicit []string
@@ -886,6 +925,29 @@ func runLex(c *Ctx) {
 	for _, s := range trickySeeds {
 		processSource(c, s, "seed", 3*nresp, nmut)
 	}
+	nm := 0
+	suffixMatrix(c, func(src string) {
+		nm++
+		p := checkSource(c, src, "matrix")
+		// token streams of the matrix: every source in the thorough tier, a deterministic sample otherwise
+		if thorough || nm%8 == int(c.Seed%8) {
+			emitLex(c, src)
+			if p.panic == nil && p.err == nil && (thorough || nm%64 == int(c.Seed%8)) {
+				if rs, changed := respace(c.Rng, src, 50); changed {
+					p2 := checkSource(c, rs, "respaced")
+					emitLex(c, rs)
+					switch {
+					case p2.panic != nil:
+					case p2.err != nil:
+						c.Violation("respace %q :: accepted, but the re-spaced %q is rejected: %v", src, rs, p2.err)
+					case !reflect.DeepEqual(p.q, p2.q):
+						c.Violation("respace %q :: the re-spaced %q parses to a different AST: %q", src, rs, p2.q.String())
+					}
+				}
+			}
+		}
+	})
+	c.Stats["matrix"] = nm
 	// a comment is irrelevant whatever it contains
 	if a, b := safeParse("1 + 2"), safeParse("1 #\x00\n+ 2"); a.q != nil && !reflect.DeepEqual(a.q, b.q) {
 		got := "rejected"
